@@ -27,6 +27,7 @@ RULE += (' Also: class managers and lease copies are falsy.')
 RULE += (' Also: managers that are awaitable as well (being awaited is reported).')
 RULE += (' Also: managers swallowing every BaseException the body raises.')
 RULE += (' Also: bodies raising subclasses of GeneratorExit / StopAsyncIteration.')
+RULE += (' Also: the decorated function as a plain function that works when called and returns an awaitable.')
 ASSUMPTIONS = ["class-based ContextDecorator instances are shared between calls (documented default of _recreate_cm)"]
 EXHAUSTIVE_SUBSPACES = 'every scenario counted in scenarios_explored_exhaustively had ALL its interleavings executed'
 EXHAUSTIVE = {"quick": False, "thorough": False}
@@ -50,7 +51,7 @@ def cases(tier, seed, shard, nshards):
             calls = [[rng.choice(["ret", "ret", "raise"]) for _ in range(rng.randint(1, 5 if nt == 1 else 3))] for _ in range(nt)]
             susp = {"enter": rng.choice([0, 1, 2]), "body": rng.choice([0, 1, 2]), "exit": rng.choice([0, 1, 2])}
         manager = rng.choice(["generator", "generator", "class", "lease"])
-        yield {"mode": mode, "manager": manager, "suppress": rng.choice([False, False, False, True, True, "all"]),
+        yield {"mode": mode, "manager": manager, "suppress": rng.choice([False, False, False, True, True, "all"]), "body_kind": rng.choice(["async", "async", "eager"]),
                "direct": rng.random() < 0.25 and manager != "lease",
                "calls": calls, "susp": susp, "cancel_task": rng.randrange(nt) if rng.random() < 0.45 else None,
                "runs": DFS_LIMIT[tier] if mode == "dfs" else RANDOM_RUNS[tier], "seed": rng.randrange(1 << 30),
@@ -201,12 +202,22 @@ def execute(case, choose, cancel_at=None):
 
     raised = {}
 
-    @deco
-    async def body(call_id, how, func=None, self=None, args=None, kwds=None, cm=None):
+    async def body_async(call_id, how, func=None, self=None, args=None, kwds=None, cm=None):
         # (parameters named like the decorator's own: they belong to the decorated function)
         if (func, self, args, kwds, cm) != ("F", "S", "A", "K", "C"):
             raise AssertionError(f"the decorated function received {(func, self, args, kwds, cm)!r}")
         ev.append((CTX.current, "body", call_id))
+        return await body_rest(call_id, how)
+
+    def body_eager(call_id, how, func=None, self=None, args=None, kwds=None, cm=None):
+        # a plain function that starts its work when CALLED and hands back an awaitable for the rest (a factory, a
+        # partial, a sync wrapper): the call itself belongs inside the context
+        if (func, self, args, kwds, cm) != ("F", "S", "A", "K", "C"):
+            raise AssertionError(f"the decorated function received {(func, self, args, kwds, cm)!r}")
+        ev.append((CTX.current, "body", call_id))
+        return body_rest(call_id, how)
+
+    async def body_rest(call_id, how):
         if susp["body"]:
             await Suspend(("body", call_id), susp["body"])
         if how == "raise":
@@ -217,6 +228,7 @@ def execute(case, choose, cancel_at=None):
             raise exc
         return ("result", call_id)
 
+    body = deco(body_eager if case.get("body_kind") == "eager" else body_async)
     results = []
 
     async def caller(t, hows):
